@@ -2,6 +2,7 @@
 the exact rational value of every float input); Bloom bit/hash counts are additionally compared with an independent
 50-digit evaluation of the documented formula; geometry is re-derived after every load channel."""
 import json
+import os
 import math
 import random as _random
 import struct
@@ -149,6 +150,72 @@ def run(focus, tier, seed):
                 cid = len(cases)
                 cases.append({"id": cid, "kind": "bloom", "num": L(est), "e": 0, "num2": [0], "e2": 0, "a": L(m), "b": 0, "c": L(k)})
                 meta[cid] = dict(info, near=g is None)
+    # ---- Bloom family: pairs where narrowing the rate to a 32-bit float changes the bit count (the documented rule sizes from the float32
+    #      rate, which is also what the footer stores: a class that sizes from the double gets another geometry after a reload)
+    import math
+    import tempfile
+    import shutil
+
+    sens = []
+    nrates = [0.24, 0.0576, 0.2858, 0.3, 0.1, 0.05, 0.01, 0.15, 0.35, 0.07, 0.2, 0.003, 0.45, 0.33, 0.6, 0.025]
+    l2 = math.log(2) ** 2
+    for est in range(2, 2600 if tier == "quick" else 12000):
+        for fpr in nrates:
+            p32f = struct.unpack("f", struct.pack("f", fpr))[0]
+            if p32f != fpr and math.ceil(-est * math.log(fpr) / l2) != math.ceil(-est * math.log(p32f) / l2):
+                sens.append((est, fpr))
+    sens = sens[:: max(1, len(sens) // (24 if tier == "quick" else 200))]
+    tmpd = tempfile.mkdtemp(prefix="sizing-", dir=tlc.scratch_root())
+    try:
+        for est, fpr in sens:
+            g = geom(est, fpr)
+            if g is None or g[0] > 60000:
+                continue
+            info = {"kind": "bloom_family", "est": est, "rate": fpr, "independent": g[:2], "float32_narrowing_changes_bit_count": True}
+            path = os.path.join(tmpd, "s.blm")
+            for cname, mk, loaders in (
+                ("BloomFilter", lambda: P.BloomFilter(est_elements=est, false_positive_rate=fpr),
+                 [("frombytes", lambda o: P.BloomFilter.frombytes(bytes(o))), ("hex", lambda o: P.BloomFilter(hex_string=o.export_hex()))]),
+                ("CountingBloomFilter", lambda: P.CountingBloomFilter(est_elements=est, false_positive_rate=fpr),
+                 [("frombytes", lambda o: P.CountingBloomFilter.frombytes(bytes(o))), ("hex", lambda o: P.CountingBloomFilter(hex_string=o.export_hex()))]),
+                ("BloomFilterOnDisk", lambda: P.BloomFilterOnDisk(path, est_elements=est, false_positive_rate=fpr),
+                 [("frombytes_inmemory", lambda o: P.BloomFilter.frombytes(bytes(o)))]),
+                ("ExpandingBloomFilter", lambda: P.ExpandingBloomFilter(est_elements=est, false_positive_rate=fpr), []),
+            ):
+                try:
+                    o = mk()
+                except Exception as exc:  # noqa
+                    total.fail("C07", "C07.constructor_raises", ENGINE, dict(info, cls=cname, raised=repr(exc)), {"kind": "bloom"})
+                    continue
+                total.evaluations += 1
+                total.nontriv(hash((cname, est, fpr)))
+                if cname == "ExpandingBloomFilter":
+                    o.add("k")
+                    raw = bytes(o)        # sub-filter record = 8-byte count + bit array, then the QQQf footer: the bit count shows in the length
+                    total.check(len(raw) == 8 + (g[0] + 7) // 8 + 28, "C07", "C07.bloom_formula", ENGINE, dict(info, cls=cname, export_length=len(raw)), {"kind": "bloom"})
+                    continue
+                m, k = o.number_bits, o.number_hashes
+                total.check((m, k) == (g[0], g[1]), "C07", "C07.bloom_formula", ENGINE, dict(info, cls=cname, bits=m, hashes=k), {"kind": "bloom"})
+                for lname, ld in loaders:
+                    try:
+                        g2 = ld(o)
+                        same = (g2.number_bits, g2.number_hashes, g2.estimated_elements) == (m, k, est)
+                    except Exception as exc:  # noqa
+                        same = False
+                    total.check(same, "C07", "C07.stable_across_reload", ENGINE, dict(info, cls=cname, channel=lname, bits=m, hashes=k), {"kind": "bloom"})
+                if cname == "BloomFilterOnDisk":
+                    o.close()
+                    try:
+                        g2 = P.BloomFilterOnDisk(path)
+                        same = (g2.number_bits, g2.number_hashes, g2.estimated_elements) == (m, k, est)
+                        g2.close()
+                    except Exception as exc:  # noqa
+                        same = False
+                    total.check(same, "C07", "C07.stable_across_reload", ENGINE, dict(info, cls=cname, channel="reopen", bits=m, hashes=k), {"kind": "bloom"})
+                    os.unlink(path)
+    finally:
+        shutil.rmtree(tmpd, ignore_errors=True)
+    total.extra["narrowing_sensitive_pairs"] = len(sens)
     # ---- TLC decides the inequalities
     nb = 8 if tier == "quick" else 15
     import concurrent.futures as cf
